@@ -987,6 +987,18 @@ func main() {
 		t.test(g.prog, old, "corpus")
 	}
 
+	// deeply nested ranges: the page tree gets taller than 64 levels
+	{
+		g := newGen(e)
+		for i := 0; i < 90; i++ {
+			g.appendPages(i, 1, false)
+			g.newRange(i)
+			g.appendPages(i, 17, false)
+		}
+		g.appendPages(90, 3, false)
+		t.test(g.prog, false, "corpus-deep-nesting")
+	}
+
 	// exhaustive small programs
 	exhaustive(t, e.Pick(3, 4), []int{1, 16}, false)
 	exhaustive(t, 3, []int{15, 17}, true)
